@@ -174,6 +174,10 @@ func genDocField(r *core.Rand, s fieldSpec) genField {
 		g.Text, g.Expect = " "+v, core.Hex(v)
 	case shInt:
 		n := r.Intn(100000)
+		if r.Chance(1, 12) {
+			// the ends of the integer types a size may be kept in
+			n = []int{0, 1<<31 - 1, 1 << 31, 1<<32 - 1, 1 << 32, 1<<53 + 1, 1 << 62, 1<<63 - 1}[r.Intn(8)]
+		}
 		g.Text, g.Expect = " "+strconv.Itoa(n), strconv.Itoa(n)
 	case shBool:
 		b := r.Bool()
@@ -250,6 +254,9 @@ func genDocField(r *core.Rand, s fieldSpec) genField {
 		for k := r.Range(1, 3); k > 0; k-- {
 			h := r.Str("0123456789abcdef", hl)
 			size := r.Intn(10000000)
+			if r.Chance(1, 10) {
+				size = []int{0, 1<<31 - 1, 1 << 31, 1<<32 - 1, 1 << 32, 1<<53 + 1, 1 << 62, 1<<63 - 1}[r.Intn(8)]
+			}
 			name := r.Pick([]string{"foo_1.0-1.dsc", "foo_1.0.orig.tar.gz", "foo_1.0-1.debian.tar.xz", "foo_1.0-1_amd64.deb"})
 			if s.Shape == shChangesFiles {
 				sec, prio := r.Pick([]string{"utils", "devel", "non-free/libs"}), r.Pick([]string{"optional", "extra"})
